@@ -317,14 +317,17 @@ def leaves(x, out):
     return out
 
 
-def _shown_bytes(b, ls, addr=False):
+def _shown_bytes(b, ls, lossy=False):
+    """is the octet string visible in one of the leaves, in any rendering that does not lose information
+    (hex, text, escaped text, address)?  lossy=True: is a rendering with replacement characters there instead?"""
     if not b:
         return True
-    cands = [b.hex()]
-    try:
-        cands.append(b.decode('utf-8').lower())
-    except UnicodeDecodeError:
-        pass
+    if lossy:
+        cands = [b.decode('utf-8', 'replace').lower(), b.decode('ascii', 'replace').lower(),
+                 b.decode('utf-8', 'ignore').lower()]
+        return any(isinstance(s, str) and c and c in s.lower() for s in ls for c in cands)
+    cands = [b.hex(), b.decode('utf-8', 'backslashreplace').lower(), b.decode('latin-1').lower(),
+             b.decode('utf-8', 'surrogateescape').lower(), repr(b)[2:-1].lower()]
     if len(b) in (4, 16):
         ip = ipaddress.ip_address(b)
         cands += [str(ip).lower(), ip.exploded.lower()]
@@ -415,8 +418,10 @@ def dump_problems(obj, m):
         for field, kind, val in atoms(p):
             ok = _shown_bytes(val, ls) if kind == 'b' else _shown_int(val, ls)
             if not ok:
-                probs.append(('missing:%s.%s' % (p[0], field), 'value %r of %s.%s is not in the dump entry %r' % (
-                    val.hex() if kind == 'b' else val, p[0], field, e)))
+                how = 'lossy' if kind == 'b' and _shown_bytes(val, ls, lossy=True) else 'missing'
+                probs.append(('%s:%s.%s' % (how, dump_label(p), field), 'value %r of %s.%s is %s the dump entry %r' % (
+                    val.hex() if kind == 'b' else val, p[0], field,
+                    'only shown with replacement characters in' if how == 'lossy' else 'not in', e)))
     return probs, text
 
 
@@ -748,6 +753,8 @@ def still_fails(clause, eff, mode, h, labels, extra):
 
 def shrink(clause, eff, mode, h, labels, extra):
     """smallest sub-list and fewest header deviations that still show (clause, effect)"""
+    if clause == 'dump':
+        return h, labels
     if extra is None or clause == 'chain':
         for n in range(0, len(labels)):
             found = None
@@ -772,8 +779,8 @@ def shrink(clause, eff, mode, h, labels, extra):
 
 
 def signature(clause, eff, mode, h, labels, extra):
-    if clause == 'dump' and eff.startswith('raises:'):
-        return 'dump:%s' % eff          # localised to the payload kind whose dump fails
+    if clause == 'dump':
+        return 'dump:%s' % eff          # localised: the effect names the payload kind and field whose dump fails
     lab = '+'.join(labels) or 'no-payload'
     if extra is not None and clause != 'chain':
         return '%s:%s:mutated[%s]:%s' % (clause, mode, lab, eff)
@@ -784,10 +791,12 @@ def report(ck, raw):
     groups = {}
     for r in raw:
         groups.setdefault((r[0], r[1], r[2], r[5] is not None and r[0] != 'chain'), []).append(r)
-    for key in sorted(groups, key=str):
+    for key in sorted(groups, key=lambda k: (k[3], str(k))):
+        if key[3] and key[:3] + (False,) in groups:
+            continue        # the same clause/effect is already shown by generated (unmutated) messages
         rs = sorted(groups[key], key=lambda r: (len(r[4]), header_label(r[3]) != 'base', r[4], str(r[5])))
         seen = set()
-        budget = 40
+        budget = 10 if key[3] else 40
         for clause, eff, mode, h, labels, extra, det in rs:
             if (labels, extra if clause == 'chain' else None) in seen:
                 continue
@@ -861,7 +870,11 @@ def main():
         if other[2] != content:
             a, b = sorted(['%s[%s]' % (other[0], '+'.join(other[1])), '%s[%s]' % (hl, '+'.join(labels))])
             hd = {header_label(h): h for h in HEADERS}
-            ck.violation('dump-distinct:%s:%s~%s' % (mode, a, b),
+            if labels == other[1]:      # the same payloads: name the header fields the dump fails to show
+                diff = 'header.' + '+'.join(f for f in H_FIELDS if hd[hl][f] != hd[other[0]][f])
+            else:
+                diff = '~'.join(sorted(['+'.join(other[1]), '+'.join(labels)]))
+            ck.violation('dump-distinct:%s:%s' % (mode, diff),
                          'the dumps of two messages with different content are identical: %s and %s' % (a, b),
                          dict(clause='dump-distinct', mode=mode, header=hd.get(other[0], BASE_H), labels=list(other[1]),
                               header2=hd.get(hl, BASE_H), labels2=list(labels)))
